@@ -53,12 +53,7 @@ Definition box_api_ok_step (vs : bvars) (o : bop) : bool :=
   | BDel i => match live_at vs i with Some d => negb (init d) | None => true end
   | _ => true
   end.
-Fixpoint box_api_ok (vs : bvars) (ops : list bop) : bool :=
-  match ops with
-  | [] => true
-  | o :: r => box_api_ok_step vs o &&
-              let '(vs1, x, _) := bstep vs o in if stops x then true else box_api_ok vs1 r
-  end.
+Definition box_api_ok := api_ok bstep box_api_ok_step.
 
 (* ---- reference: option ---- *)
 Definition rbvars := list (cell (option N)).
